@@ -16,7 +16,7 @@ import c12_gen as G
 
 META = {
     "category": "proof",
-    "text": "Coq theorems (Log/Props_C12.v) over an executable model of sst/src/log.rs (WriteBatch, LogBuilder::_append/append_split/true_up, LogIterator::next/next_frame/next_header/true_up, the prototk header and entry codecs) for every block size > HEADER_MAX_SIZE and an arbitrary crc function: reading a written log returns exactly the entries of the successfully appended batches in order; reading ANY byte prefix of it returns exactly the batches wholly inside the prefix and then ends or errors; plus a small-step model of ConcurrentLogBuilder over the two coalescing queues (each batch once and whole, a call returns Ok only after an fdatasync that covers its bytes). The model is tied to the code by differential runs on boundary-solved logs (0..25 bytes before the 1 MiB boundary), all truncations in windows around boundaries/frame ends, mutated and raw malformed files, multi-threaded appends (file decomposition + strace ordering of write/fdatasync/ack).",
+    "text": "Coq theorems (Log/Props_C12.v, closed under the global context) over an executable model of sst/src/log.rs (WriteBatch, LogBuilder::_append/append_split/true_up, LogIterator::next/next_frame/next_header/true_up, the prototk header and entry codecs) for every block size > HEADER_MAX_SIZE, every batch size/count and an arbitrary crc function: reading a written log returns exactly the entries of the successfully appended batches in order and ends cleanly; reading ANY byte prefix of it returns exactly the batches wholly inside the prefix and then ends or errors; the writer never panics, lays frames out as whole | first+padding+second with padding <= HEADER_MAX_SIZE, fails only at the two size checks; the reader is total on arbitrary bytes; plus (labelled partial) a small-step model of ConcurrentLogBuilder over the interface of the two coalescing queues, for every schedule: the file is the sequential log of the merged batches (each request once, whole, in link order), a call returns Ok only after an fdatasync covering its bytes, and an acknowledged batch is read back from every cut at or after the durable mark. The model is tied to the code by differential runs on boundary-solved logs (0..25 bytes before the 1 MiB boundary), all truncations in windows around boundaries/frame ends, mutated and raw malformed files, multi-threaded appends (file decomposition + strace ordering of write/fdatasync/ack).",
     "note": "Trusted: Coq kernel; tools/constants.py; ExtrOcamlBasic extraction + ocaml/log/mx_log.ml (incl. its crc32c); harness c12; strace. crc32c is an arbitrary function (no property used). I/O errors other than short reads, and the BufWriter/BufReader internals, are outside the model. The concurrent theorems are about the queue-interface model (sync42 internals are C18's), labelled partial.",
 }
 
@@ -213,6 +213,7 @@ def run(chk):
         "input_distribution": stats, "read_outcomes_impl": errkinds,
         "corpus_cases": ncorpus, "reads": n_reads, "truncations": n_cuts, "reads_also_run_on_model": n_model_reads,
         "concurrent_cases": len(conc), "strace": {k: v for k, v in strace_info.items() if k != "bad"},
+        "traces_validated_against_impl": strace_info["runs"] + len(conc),
         "correspondence": "impl (Rust, release + overflow-checks + debug-assertions) vs extracted Coq model: append results and offsets, byte-exact file (length + FNV-1a 64), read results (entries as batch prefix or digest, end/error class); direct oracle: prefix rule from the implementation's own append offsets",
         "disagreements_impl_vs_model": len(corr_bad), "disagreements_impl_vs_spec": len(prop_bad) + len(conc_bad),
         "timing_s": {"impl": round(t1 - t0, 1), "model": round(t2 - t1, 1), "concurrent": round(t3 - t2, 1)},
